@@ -647,14 +647,7 @@ func (c *Check) onceFields() {
 				continue
 			}
 			key := fmt.Sprintf("once-read:file.%s@%s", F, fnName(f))
-			ok := false
-			for _, b := range f.Blocks {
-				for _, ins := range b.Instrs {
-					if call, isCall := ins.(*ssa.Call); isCall && call.Call.StaticCallee() != nil && call.Call.StaticCallee().String() == "(*sync.Once).Do" && instrDominates(call, fa) {
-						ok = true
-					}
-				}
-			}
+			ok := dominatedByOnce(f, fa)
 			if ok {
 				c.ok("C20-R1", key, p.relFile(fa.Pos()), "file."+F+" read in "+fnName(f), "a baseOnce.Do call dominates the read")
 			} else if fnName(f) == "(*binutils.fileAddr2Line).init" {
@@ -685,10 +678,93 @@ func (c *Check) onceFields() {
 func dominatedByOnce(f *ssa.Function, ins ssa.Instruction) bool {
 	for _, b := range f.Blocks {
 		for _, i2 := range b.Instrs {
-			if call, ok := i2.(*ssa.Call); ok && call.Call.StaticCallee() != nil && call.Call.StaticCallee().String() == "(*sync.Once).Do" && instrDominates(call, ins) {
+			call, ok := i2.(*ssa.Call)
+			if !ok || call.Call.StaticCallee() == nil || !instrDominates(call, ins) {
+				continue
+			}
+			if call.Call.StaticCallee().String() == "(*sync.Once).Do" || onceEnsurer(call.Call.StaticCallee()) {
 				return true
 			}
 		}
+	}
+	return false
+}
+
+// onceEnsurer: a module helper (possibly reached through a promoted-method wrapper) that
+// runs a sync.Once.Do on every path before it returns, e.g.
+// func (f *file) ensureBase(addr) error { f.baseOnce.Do(…); return f.baseErr }.
+func onceEnsurer(h *ssa.Function) bool {
+	for i := 0; i < 3 && h != nil; i++ {
+		if !fnInModule(h) || len(h.Blocks) == 0 {
+			return false
+		}
+		var dos []*ssa.Call
+		var fwd *ssa.Function
+		for _, b := range h.Blocks {
+			for _, ins := range b.Instrs {
+				if call, ok := ins.(*ssa.Call); ok && call.Call.StaticCallee() != nil {
+					if call.Call.StaticCallee().String() == "(*sync.Once).Do" {
+						dos = append(dos, call)
+					} else if h.Synthetic != "" {
+						fwd = call.Call.StaticCallee() // wrapper forwarding to the declared method
+					}
+				}
+			}
+		}
+		if len(dos) > 0 {
+			for _, b := range h.Blocks {
+				ret, ok := b.Instrs[len(b.Instrs)-1].(*ssa.Return)
+				if !ok {
+					continue
+				}
+				covered := false
+				for _, d := range dos {
+					if instrDominates(d, ret) {
+						covered = true
+					}
+				}
+				if !covered {
+					return false
+				}
+			}
+			return true
+		}
+		h = fwd
+	}
+	return false
+}
+
+// returnsFieldOfReceiver: every return of helper h hands back the field T.F of its receiver
+// (or first parameter); following promoted-method wrappers.
+func returnsFieldOfReceiver(h *ssa.Function, T, F string) bool {
+	for i := 0; i < 3 && h != nil; i++ {
+		if !fnInModule(h) || len(h.Blocks) == 0 {
+			return false
+		}
+		if h.Synthetic != "" {
+			var fwd *ssa.Function
+			for _, b := range h.Blocks {
+				for _, ins := range b.Instrs {
+					if call, ok := ins.(*ssa.Call); ok && call.Call.StaticCallee() != nil {
+						fwd = call.Call.StaticCallee()
+					}
+				}
+			}
+			h = fwd
+			continue
+		}
+		n := 0
+		for _, b := range h.Blocks {
+			ret, ok := b.Instrs[len(b.Instrs)-1].(*ssa.Return)
+			if !ok {
+				continue
+			}
+			if len(ret.Results) != 1 || !isFieldLoad(ret.Results[0], T, F) {
+				return false
+			}
+			n++
+		}
+		return n > 0
 	}
 	return false
 }
